@@ -110,18 +110,6 @@ ConstFun(m, x) == TLCEval([i \in Idx(m) |-> x])
 CWalk(c) == LET a == Asc(NZ(c)) IN IF a = <<>> THEN <<>> ELSE [k \in 1..Len(a) |-> <<a[k], c[a[k]]>>]
 CJointWalk(c, w) == LET a == Asc(NZ(c) \cup NZ(w))
                     IN IF a = <<>> THEN <<>> ELSE [k \in 1..Len(a) |-> <<a[k], c[a[k]], w[a[k]]>>]
-(* iteration over a VIEW of a matrix stored row-major with `cols` columns: the window rows r0..r1-1,  *)
-(* columns c0..c1-1, started at view position (fi, fj): exactly the non-zero elements of the window *)
-(* from there on, in row-major order, reported in view coordinates <<i, j, value>>                  *)
-CViewWalk(c, cols, r0, r1, c0, c1, fi, fj) ==
-  LET k0 == (r0 + fi) * cols + c0 + fj
-      W  == {k \in NZ(c) : k >= k0 /\ (k \div cols) < r1 /\ (k % cols) >= c0 /\ (k % cols) < c1}
-      a  == Asc(W)
-  IN IF a = <<>> THEN <<>> ELSE [t \in 1..Len(a) |-> <<(a[t] \div cols) - r0, (a[t] % cols) - c0, c[a[t]]>>]
-(* the elements of the window, row-major: what At(i, j) of the view reads *)
-CWindow(c, cols, r0, r1, c0, c1) ==
-  LET vc == c1 - c0  m == (r1 - r0) * vc
-  IN IF m <= 0 THEN <<>> ELSE TLCEval([t \in 1..m |-> c[(r0 + ((t - 1) \div vc)) * cols + c0 + ((t - 1) % vc)]])
 CIterStart(c, from) == MinGE(NZ(c), from)
 CIterNext(c, pos)   == MinGT(NZ(c), pos)
 CRest(c, pos)       == Asc({i \in NZ(c) : i > pos})     \* what a live iterator still has to visit
